@@ -321,3 +321,14 @@ def run(rep: Report, tier: str):
     check_partition(repo, rep, max_n)
     check_range_guard(repo, rep)
     check_var_threading(repo, rep, max_n)
+
+    # value level, interpreted last: cli.main on stacks of real pickles
+    from ..cliworlds import explore as _cli_explore
+
+    rep.rule("C18.cli-worlds", "on real stacks: n pickles out, bystanders byte-identical, the target is the helper's output on it alone; out-of-range targets fail and emit nothing; decompilation prints one program with distinct result and variable names", 1)
+    found, n_worlds = _cli_explore(repo, tier)
+    mainf = repo.func("fickling.cli.main")
+    for key, (c, msg) in sorted(found.items()):
+        rep.bad("C18.cli-worlds", mainf.qualname, key, f"{msg} [{c} world(s)]", mainf.file, mainf.line)
+    rep.ok("C18.cli-worlds", mainf.qualname, f"{n_worlds} worlds (stacks of 1-3 real pickles x every target 0..n x --run-last x --replace-result x file / standard input for injection; the same stacks decompiled) with cli.main interpreted and argparse, the standard streams, open and print supplied by the world", "", nontrivial=True)
+
